@@ -2,17 +2,17 @@
 UNITS = [dict(
     name='string', harness='harness/c06_string.cpp', sources=['repo:src/String.cpp', 'repo:src/Memory.cpp'],
     defines={'quick': {'VF_K': 1, 'VF_L': 2, 'VF_KS': 2}, 'thorough': {'VF_K': 2, 'VF_L': 2, 'VF_KS': 3}},
-    entries=['history', 'sharing', 'queries', 'tokens'],
+    entries=['history', 'sharing', 'queries', 'tokens', 'format'],
     opts={'all': {'unwind': 64}},
     split={'quick': 12, 'thorough': 16},
     budget={'quick': 280, 'thorough': 2600},
     validate=['history', 'queries'],
 )]
 BOUNDS = {
-    'quick': 'three String variables (empty / literal-attached / owned, optionally sharing one buffer), 1 mutating operation (thorough: 2) out of 20, plus histories of <= 2 (thorough: 3) of the 10 sharing-related operations, (assignment, append/prepend of String|buffer|char incl. self arguments, attach, clear, resize, reserve, replace(char), case mapping, trim, substr, copy+modify, replace(String,String), C-string view, construction from literal/buffer/fill), every variable + attached memory + literal compared after every operation; read-only queries and token/split/join on NUL-free symbolic strings of length <= 3/4',
+    'quick': 'three String variables (empty / literal-attached / owned, optionally sharing one buffer), 1 mutating operation (thorough: 2) out of 20, plus histories of <= 2 (thorough: 3) of the 10 sharing-related operations, (assignment, append/prepend of String|buffer|char incl. self arguments, attach, clear, resize, reserve, replace(char), case mapping, trim, substr, copy+modify, replace(String,String), C-string view, construction from literal/buffer/fill), every variable + attached memory + literal compared after every operation; printf/fromPrintf with a symbolic string and integer incl. the >200-byte retry path; read-only queries and token/split/join on NUL-free symbolic strings of length <= 3/4',
     'thorough': 'histories of <= 2 operations out of 20 and <= 3 sharing-related operations',
 }
-OUTSIDE = 'strings longer than ~8 bytes, bytes equal to NUL (the C-string based searches are specified for NUL-free text), printf formatting (libc; see C18), allocation failure'
+OUTSIDE = 'strings longer than ~8 bytes, bytes equal to NUL (the C-string based searches are specified for NUL-free text), libc number formatting itself (reference model, see C18), allocation failure'
 ASSUMPTIONS = ['clang++-14 -O1 IR of include/nstd/String.hpp + src/String.cpp + src/Memory.cpp; libc string functions (strstr, strchr, strpbrk, memcmp...) are engine built-ins written from their man-page contract',
                'attached ranges are followed by one readable byte (operator const char* peeks at str[len])',
                'all symbolic data bytes are non-NUL']
